@@ -181,6 +181,12 @@ func (ps *Parser) getItemProp(element *html.Node) []string {
 
 func (ps *Parser) getItemType(element *html.Node) SchemaType {
 	schemaType := dom.GetAttribute(element, "itemtype")
+
+	// schema.org is served over https as well, and both spellings name the same type.
+	if strings.HasPrefix(schemaType, "https://") {
+		schemaType = "http://" + strings.TrimPrefix(schemaType, "https://")
+	}
+
 	return schemaTypeURLs[schemaType]
 }
 
